@@ -329,7 +329,11 @@ def analyse_function(fn):
         if isinstance(st, ast.If) and any(e[1] >= st.lineno and e[1] <= st.end_lineno for e in late_raise + late_write):
             continue        # already counted as late raise / late write
         late_code.append("line %d: %s" % (st.lineno, ast.unparse(st).split("\n")[0][:60]))
+    # bulk junctions have no per-row list: is the length of a passed index compared with nr_junctions before writing?
+    index_len_check = any(isinstance(n, ast.Compare) and n.lineno < first_write and "len(index)" in ast.unparse(n)
+                          and "nr_junctions" in ast.unparse(n) for n in ast.walk(fn))
     return {"fn": fn.name, "table": table, "bulk": bulk, "params": params, "kwargs": has_kwargs,
+            "index_len_check": index_len_check,
             "columns": [(c, s) for c, s in cols], "refcols": refcols, "std": std, "eg": eg,
             "late_raise": [e[2] for e in late_raise], "late_write": [e[2] for e in late_write], "pre_write": [e[2] for e in pre_write],
             "late_check": [e[2] for e in late_check], "late_code": late_code, "silent_return": [e[2] for e in silent],
